@@ -35,6 +35,8 @@ MIN = {'quick': {'distinct': 2000,
                            'transitions.gap': 1500,
                            'cli.transitions': 20},
                  'strata': {'cli with a token-editing transformation': 8,
+                            'command line: two readings of one sentence in '
+                            'a file': 10,
                             'cli with latin-1 on either side': 10,
                             'cli with a transformation that returns a new '
                             'root': 6,
@@ -251,6 +253,21 @@ def make_post(system):
             names = [t.pretty_print() for t in trans]
         except Exception as e:
             _fail(system + '-bad-result', repr(e))
+            return
+        # the oracle reads the tree: the tree the caller holds afterwards is
+        # still the tree the sequence has to rebuild
+        try:
+            d_after, after = model.snapshot(args[0])
+            same = not d_after and model.canon(after, 'wplmeh') == \
+                model.canon(before, 'wplmeh')
+        except Exception as e:
+            d_after, same = [repr(e)], False
+        Cur.ctx.hook('tree compared before / after the oracle')
+        if not same:
+            _fail(system + '-changes-the-tree-it-reads', 'before %s | after '
+                  '%s' % (model.show(before, 'wpe'),
+                          '; '.join(map(str, d_after[:3])) if d_after
+                          else model.show(after, 'wpe')))
             return
         want = [(t.word, t.label) for t in before.toks()]
         if [tuple(x) for x in terminals] != want:
@@ -472,6 +489,15 @@ def run_cli(ctx, rng, i):
                              p_unary=0.15,
                              moves=rng.choice([1, 2, 3]) if system == 'gap'
                              else 0, sid=j + 1))
+    if rng.random() < 0.3:
+        # two readings of one sentence in the same file: same words and tags,
+        # another tree
+        k_ = rng.randrange(len(bank))
+        bank.append(gen.same_sentence(
+            rng, bank[k_], pools, sid=len(bank) + 1,
+            max_arity=rng.choice([2, 3, 4]), p_unary=0.15,
+            moves=rng.choice([1, 2, 3]) if system == 'gap' else 0))
+        ctx.stratum('command line: two readings of one sentence in a file')
     pos = rng.random() < 0.4
     sfmt = rng.choice(['export', 'export', 'tigerxml', 'discobrackets']
                       + (['brackets'] if system != 'gap' else []))
